@@ -54,6 +54,14 @@ def _field_value(s: str):
     return f
 
 
+class _Ghost:
+    name = "thread-that-did-not-survive-the-fork"
+    state = "done"
+
+
+_GHOST_OWNER = _Ghost()
+
+
 def _library_pool_start_method() -> str:
     """How the library's own pool class (panoptica.utils.NonDaemonicPool) starts its workers."""
     import multiprocessing
@@ -462,6 +470,16 @@ class Exec:
         cmd_r, cmd_w = os.pipe()
         msg_r, msg_w = os.pipe()
         sys.stdout.flush()
+        # fork copies the parent's memory: a threading lock of the package that some thread of the
+        # parent holds right now is *held* in the child's copy too - by a thread that does not
+        # exist there, i.e. forever
+        sc = self.sched
+        if isinstance(sc, Scheduler):
+            parent_proc, child_proc = WORLD.current_proc(), (group.gid, tid + 1)
+            for (gid, key), st in list(sc.lockstate.items()):
+                if gid == group.gid and isinstance(key, tuple) and len(key) == 3 and key[0] == "thread" and key[2] == parent_proc and st["owner"] is not None:
+                    sc.lockstate[(gid, ("thread", key[1], child_proc))] = {"owner": _GHOST_OWNER}
+                    self.note("threading_lock_inherited_locked")
         pid = os.fork()
         if pid == 0:
             code = 0
